@@ -1141,6 +1141,12 @@ class Interp:
         if src == 'next' and node.args and isinstance(node.args[0], ast.GeneratorExp) and not node.keywords:
             yield from self.first_match(node, st)
             return
+        if src == 'head' and self.ctx.spec_depth and 'head' not in st.frame.vars:
+            hs = getattr(st, 'loop_heads', None)
+            if not hs:
+                self.err(node, 'head() outside a loop step clause')
+            yield self.spec_eval_with(node.args[0], hs[-1]), st
+            return
         if src == 'super':
             f = st.frame
             selfv = f.vars.get('self')
@@ -1315,7 +1321,8 @@ class Interp:
             if info is None:
                 self.err(node, f'call of function without indexed source: {fv!r}')
             c = self.contracts.get(info.key)
-            if c is not None and c.modular and self.modular and not self.ctx.spec_depth \
+            if c is not None and c.modular and self.modular and (not self.ctx.spec_depth or c.functional) \
+                    and not (self.active_contract is not None and c.key in self.active_contract.inline) \
                     and (self.active_contract is None or c.key != self.active_contract.key or self.call_depth > 0):
                 from .modular import apply_contract
                 yield from apply_contract(self, c, info, args, kwargs, st, node)
